@@ -1839,6 +1839,8 @@ func elementToBytes(el *etree.Element) ([]byte, error) {
 	}
 
 	doc := etree.NewDocument()
+	doc.WriteSettings.CanonicalText = true
+	doc.WriteSettings.CanonicalAttrVal = true
 	doc.SetRoot(el.Copy())
 	for space, uri := range namespaces {
 		doc.Root().CreateAttr("xmlns:"+space, uri)
